@@ -2,7 +2,7 @@
 """Writes MANIFEST.json from the table below (kept in one place so texts stay consistent with DESIGN.md)."""
 import json, os
 HERE = os.path.dirname(os.path.abspath(__file__))
-COMMON_NOTE = ("Trusted base: Verus 0.2026.09.13 + Z3; the mechanical extraction vgen (rules R1-R24, logged per run); prelude wrappers "
+COMMON_NOTE = ("Trusted base: Verus 0.2026.09.13 + Z3; the mechanical extraction vgen (rules R1-R25, logged per run); prelude wrappers "
                "(external_body) for to/from_be_bytes, slice->array, fill, chunks_exact().map(), Cow deref/From/into_owned, Box unsizing; "
                "vstd's std specs; A-lang (slice/Vec length bounds, sums of sizes fit usize). The evidence file lists every "
                "external_body / assume_specification / axiom found by the per-run scan.")
